@@ -124,6 +124,12 @@ func typedList(item typed, min, max *int64) (typed, bool) {
 		return listOf(n, min, max), true
 	case tnode[*regexp.Regexp]:
 		return listOf(n, min, max), true
+	case tnode[any]:
+		return listOf(n, min, max), true
+	case tnode[[]any]:
+		return listOf(n, min, max), true
+	case tnode[map[string]any]:
+		return listOf(n, min, max), true
 	case tnode[[]int64]:
 		return listOf(n, min, max), true
 	case tnode[[]string]:
@@ -146,6 +152,10 @@ func typedList(item typed, min, max *int64) (typed, bool) {
 
 func typedMapV[K comparable](k tnode[K], v typed, min, max *int64) (typed, bool) {
 	switch n := v.(type) {
+	case tnode[any]:
+		return mapOf(k, n, min, max), true
+	case tnode[[]any]:
+		return mapOf(k, n, min, max), true
 	case tnode[int64]:
 		return mapOf(k, n, min, max), true
 	case tnode[float64]:
@@ -442,7 +452,8 @@ func (b *builder) build(s *Schema) (schema.Type, typed, error) {
 				}
 				types[m.KeyInt] = o
 			}
-			return schema.NewOneOfIntSchema[any](types, s.Field, s.Inlined), nil, nil
+			t := schema.NewOneOfIntSchema[any](types, s.Field, s.Inlined)
+			return t, tnode[any]{t}, nil // a one-of is a TypedType[any]: typed lists / maps over it have T = any
 		}
 		types := map[string]schema.Object{}
 		for _, m := range s.Members {
@@ -456,7 +467,8 @@ func (b *builder) build(s *Schema) (schema.Type, typed, error) {
 			}
 			types[txt] = o
 		}
-		return schema.NewOneOfStringSchema[any](types, s.Field, s.Inlined), nil, nil
+		t := schema.NewOneOfStringSchema[any](types, s.Field, s.Inlined)
+		return t, tnode[any]{t}, nil
 	case "ref":
 		return schema.NewRefSchema(s.ID, nil), nil, nil
 	case "scope":
@@ -583,6 +595,8 @@ func (b *builder) object(s *Schema) (schema.Type, typed, error) {
 		t, n = structObject[*catalog.Sub](s.ID, props, s.Typed)
 	case "subptrs":
 		t, n = structObject[catalog.SubPtrs](s.ID, props, s.Typed)
+	case "outer":
+		t, n = structObject[catalog.Outer](s.ID, props, s.Typed)
 	default:
 		return nil, nil, fmt.Errorf("unknown layout %q", s.Layout)
 	}
